@@ -185,6 +185,9 @@ func (e *Exec) runHeap() *Violation {
 	if s.Op == "hcross" {
 		return e.runHeapCross(s)
 	}
+	// every other heap run: string keys are substrings of large strings
+	substrKeys = s.Lay == 1
+	defer func() { substrKeys = false }()
 	ts := e.trees[0]
 	api := ts.api
 	if b := api.Buf(); b != nil {
@@ -436,6 +439,9 @@ func genHeapTrace(seed uint64, run int, o genOpts) *Trace {
 	tr.Steps = []Step{{T: 0, Op: class, N: N, V: uint64(size), K: u64bytes(r.U64())}}
 	if class == "hquery" && r.Chance(2, 3) {
 		tr.Steps[0].Pad = r.Range(1, 9) // an unbroken run of one kind of query
+	}
+	if r.Chance(1, 2) {
+		tr.Steps[0].Lay = 1 // string keys cut out of large strings
 	}
 	if class == "hdrain" && r.Chance(1, 2) {
 		tr.Steps[0].Pad = 1 // fresh keys every round
